@@ -18,7 +18,8 @@ RULE_TEXT = ("C11-W: is_whitespace denotes exactly {0..=9} U {11..=32} (set equa
              "mnemonic classes are [A-Za-z] and [A-Za-z0-9_]; child lookup is case-insensitive on whole names (C01-M) "
              "and short and long forms are both in the trie (C01-T)."
              " C11-PR: the contracts of the parser combinators the skeleton builds on are read from their bodies - satisfy (accept first byte iff pred / soft error / Incomplete on empty), take_while (never fails; longest prefix, position() form or counting-loop form), optional (never fails; Some(value) or input untouched), tag(b) = satisfy(== b)."
-             " C11-R: run examines the bytes of its input through parse only (and, behind a failed parse, to find the terminator) - no test on raw bytes in front of the parser's white-space handling. C11-C03V: character program data reaches a handler only through a case-ignoring conversion (the conversion table of C03).")
+             " C11-R: run examines the bytes of its input through parse only (and, behind a failed parse, to find the terminator) - no test on raw bytes in front of the parser's white-space handling. C11-C03V: character program data reaches a handler only through a case-ignoring conversion (the conversion table of C03)."
+             " C11-K: the buffer discipline of process (K1-K8): only the newline byte ends a message when streaming, and bytes reach run unchanged.")
 
 WS = frozenset(list(range(0, 10)) + list(range(11, 33)))
 
